@@ -65,7 +65,7 @@ PROPS = {
         "trusted": ["known finding valuation-account-not-opened: generated valuation accounts are never opened (C16_valuation_account_not_opened)"],
     },
     "C06": {
-        "lean": ["Knut.Properties.C06", "Knut.Properties.C06Report", "Knut.Properties.C05Valued", "Knut.FactsAgree.C06", "Knut.FactsAgree.C06Conc"],
+        "lean": ["Knut.Properties.C06", "Knut.Properties.C06Report", "Knut.Properties.C05Valued", "Knut.FactsAgree.C06", "Knut.FactsAgree.C06Conc", "Knut.Properties.C05Go"],
         "level": "proof",
         "claim": "PARTIAL proof + repeated-run check. In the model every map iteration / arrival order is the order of a list; proved for all inputs: C06_sort_oracle_irrelevant and "
                  "C06_sorted_fold_oracle_irrelevant (sorting with a total antisymmetric comparator removes the enumeration order: the dict.SortedKeys / compare.Sort sites), C06_sum_oracle_irrelevant "
@@ -98,7 +98,7 @@ PROPS = {
         "assumptions": [],
     },
     "C05": {
-        "lean": ["Knut.Properties.C05", "Knut.Properties.C05Verdict", "Knut.Properties.C05Inserts", "Knut.Properties.C05Valued", "Knut.Properties.C05Layout", "Knut.FactsAgree.TransJournal"],
+        "lean": ["Knut.Properties.C05", "Knut.Properties.C05Verdict", "Knut.Properties.C05Inserts", "Knut.Properties.C05Valued", "Knut.Properties.C05Layout", "Knut.FactsAgree.TransJournal", "Knut.Properties.C05Go"],
         "level": "proof",
         "claim": "PARTIAL proof + metamorphic correspondence. Proved for all directive lists and all permutations of them: ofList_spec (the builder's days are sorted by date and each day holds "
                  "exactly the directives of its date, per kind, in input order), C05_same_dates, C05_same_day_content (per day and kind the contents are permutations of each other), "
